@@ -6,7 +6,14 @@ P=$(realpath "$1"); PID=$2; TIER=${3:-quick}
 D=$(mktemp -d /tmp/mut.XXXXXX)
 cp -r /repo/src "$D/src"
 find "$D/src" -name '*.so' -delete -o -name '*.c' -delete
-if ! (cd "$D" && patch -s -p1 < "$P"); then echo "PATCH-FAILED"; rm -rf "$D"; echo "exit=3"; exit 3; fi
+# only the source files matter (a change may also touch CHANGES.rst, doc/, tests/: not copied)
+/venv/bin/python - "$P" > "$D/src-only.diff" <<'PY'
+import re, sys
+text = open(sys.argv[1], encoding="utf-8", errors="surrogateescape").read()
+parts = re.split(r"(?m)^(?=diff --git )", text)
+sys.stdout.write("".join(p for p in parts if re.match(r"diff --git a/src/", p)))
+PY
+if ! (cd "$D" && patch -s -p1 < "$D/src-only.diff"); then echo "PATCH-FAILED"; rm -rf "$D"; echo "exit=3"; exit 3; fi
 cd /verif
 set +e
 VERIF_REPO="$D" ./check "$PID" --tier "$TIER" 2>&1 | tail -${TAIL:-6}
